@@ -11,6 +11,7 @@ Decided
       positions in the lookup table and keeps -1
   A4  features from waveforms: projection contracts the sample axis and returns (spike, channel, component); 3 components;
       computed features are written at the positions of the stored spikes within the request
+  +   a buffer that receives stored values holds them exactly: float64 (NumPy default) or the dtype of the store, never a narrower type (the loader accepts float64 stores)
 Not decided: PCA numerics, value equality.
 """
 import ast
@@ -294,6 +295,57 @@ def run(ctx):
         ctx.undecided('C06.A4', gf, 'placement of the computed features not recognised')
     if nrep == 0:
         ctx.holds('C06.A0', gf, 'no index-space conflict in get_features (3 configurations), get_template_features (2), _project_pcs', 'feature access')
+    ctx.part('C06.A1', value_buffers)
+
+
+def value_buffers(ctx):
+    """"returns the stored value": a buffer that receives stored feature values must be able to hold them exactly. The stores may be float64 (the loader accepts
+    float32 and float64), so the buffer is float64 (NumPy's default), has the dtype of the store, or - anything narrower (float32, float16, an integer type) rounds."""
+    repo = ctx.repo
+    cls = repo.cls(M, 'TemplateModel')
+    fs_ = repo.func(M, 'from_sparse')
+    sites = []
+    for fi in (repo.lookup_method(cls, 'get_features'), repo.lookup_method(cls, 'get_template_features'), fs_):
+        for f_ in repo.transparent_closure(fi):
+            def is_data(e, f_=f_):
+                for n_ in ast.walk(e):
+                    if isinstance(n_, ast.Attribute) and n_.attr == 'data' and isinstance(n_.ctx, ast.Load):
+                        return True
+                    if f_ is fs_ and isinstance(n_, ast.Name) and n_.id == fs_.params[0]:
+                        return True
+                return False
+            for a in f_.nodes(ast.Assign):
+                t = a.targets[0]
+                if isinstance(t, ast.Subscript) and isinstance(t.value, ast.Name) and is_data(a.value):
+                    d_ = f_.unique_def(t.value.id)
+                    if d_ is None:
+                        d_ = f_.reaching_def(t.value)
+                    sites.append((f_, a, t.value.id, d_))
+    if not sites:
+        ctx.undecided('C06.A1', fs_, 'no buffer receiving stored feature values was found')
+        return
+    WIDE = ('np.float64', 'float', 'np.double', 'np.float_', 'np.longdouble')
+    NARROW = ('np.float32', 'np.float16', 'np.single', 'np.half', 'np.int32', 'np.int64', 'int', 'np.int16', 'np.uint8', 'np.int8', 'np.uint16', 'np.uint32', 'bool', 'np.bool_')
+    for f_, a, name, d_ in sites:
+        if not (isinstance(d_, ast.Call) and (dotted(d_.func) or '').split('.')[-1] in ('empty', 'zeros', 'ones', 'full', 'empty_like', 'zeros_like', 'full_like', 'ones_like')):
+            ctx.undecided('C06.A1', f_, 'allocation of the buffer `%s` that receives stored values not recognised' % name, a)
+            continue
+        kind = (dotted(d_.func) or '').split('.')[-1]
+        dt = q.kwarg(d_, 'dtype')
+        if dt is None:
+            pos = {'empty': 1, 'zeros': 1, 'ones': 1, 'full': 2, 'empty_like': 1, 'zeros_like': 1, 'ones_like': 1, 'full_like': 2}[kind]
+            dt = d_.args[pos] if len(d_.args) > pos else None
+        dx = f_.expand(dt) if dt is not None else None
+        txt = (dotted(dx) or (const_value(dx) if isinstance(dx, ast.Constant) else None)) if dx is not None else None
+        like = kind.endswith('_like')
+        good = (dx is None and not like) or txt in WIDE or txt in ('float64', 'f8', 'd', '<f8') or \
+            (isinstance(dx, ast.Attribute) and dx.attr == 'dtype' and any(isinstance(n_, ast.Attribute) and n_.attr == 'data' for n_ in ast.walk(dx))) or \
+            (f_ is fs_ and dx is not None and Pat().m('%s.dtype' % fs_.params[0], dx)) or \
+            (dx is None and like and d_.args and (Pat().m(fs_.params[0], d_.args[0]) if f_ is fs_ else any(isinstance(n_, ast.Attribute) and n_.attr == 'data' for n_ in ast.walk(d_.args[0]))))
+        bad = not good and (txt in NARROW or txt in ('float32', 'f4', 'float16', 'f2', 'int', 'int32', 'int64', 'i4', 'i8', '<f4'))
+        ctx.tri(bool(good), bool(bad), 'C06.A1', f_, d_, 'the buffer `%s` that receives stored values holds them exactly (float64 or the dtype of the store)' % name,
+                'the buffer `%s` that receives stored feature values is allocated as %s: float64 stores (accepted by the loader) are rounded, the returned value is not the stored one' % (name, txt),
+                'dtype of the buffer `%s` (`%s`) not recognised' % (name, unparse(dx) if dx is not None else 'default of a *_like call'))
 
 
 LEVEL_TEXT = ('Static index-space typing of feature access (row table positions vs request positions, template-indexed column table, result axes), '
